@@ -61,7 +61,7 @@ pub trait UnaryService<R> {
 }
 pub trait ServerStreamingService<R> {
     type Response;
-    type ResponseStream;
+    type ResponseStream: Stream<Item = Result<Self::Response, Status>>;
     type Future: Future<Output = Result<Response<Self::ResponseStream>, Status>>;
     spec fn respond(&self, request: Request<R>) -> Result<Response<Self::ResponseStream>, Status>;
     fn call(&mut self, request: Request<R>) -> (f: Self::Future) ensures f@ == old(self).respond(request);
@@ -74,7 +74,7 @@ pub trait ClientStreamingService<R> {
 }
 pub trait StreamingService<R> {
     type Response;
-    type ResponseStream;
+    type ResponseStream: Stream<Item = Result<Self::Response, Status>>;
     type Future: Future<Output = Result<Response<Self::ResponseStream>, Status>>;
     spec fn respond(&self, request: Request<Streaming<R>>) -> Result<Response<Self::ResponseStream>, Status>;
     fn call(&mut self, request: Request<Streaming<R>>) -> (f: Self::Future) ensures f@ == old(self).respond(request);
@@ -198,6 +198,9 @@ impl EnabledCompressionEncodings {
     u._emit('impl<T> Request<T> {'); u._open_header = 'impl<T> Request<T> {'
     u.fn(RQ, 'from_http_parts', within='impl<T> Request<T>', props=P, ensures=[Clause('fields', 'r.metadata.headers@ == parts.headers@ && r.message == message && r.extensions == parts.extensions')])
     u.fn(RQ, 'from_http', within='impl<T> Request<T>', props=P, ensures=[Clause('nothing_dropped', 'r.metadata.headers@ == http.headers@ && r.message == http.body && r.extensions == http.extensions')])
+    u.fn(RQ, 'into_inner', within='impl<T> Request<T>', props=P, ensures=[Clause('message', 'r == self.message')])
+    u.fn(RQ, 'get_ref', within='impl<T> Request<T>', props=P, ensures=[Clause('message', '*r == self.message')])
+    u.fn(RQ, 'metadata', within='impl<T> Request<T>', props=P, ensures=[Clause('field', '*r == self.metadata')])
     u.fn(RQ, 'metadata_mut', within='impl<T> Request<T>', props=P,
          ensures=[Clause('borrow', '*r == old(self).metadata && *final(r) == final(self).metadata && final(self).message == old(self).message && final(self).extensions == old(self).extensions')])
     u.close('}')
@@ -208,6 +211,11 @@ impl EnabledCompressionEncodings {
              Clause('P2_user_metadata_minus_reserved', 'sanitized_of(r.headers@, self.metadata.headers@)', ['C08', 'C03', 'C02']),
          ])
     u.fn(RS, 'extensions', within='impl<T> Response<T>', props=P, ensures=[Clause('field', '*r == self.extensions')])
+    EMPTYMAP = 'Map::<Seq<char>, Seq<Seq<u8>>>::empty()'
+    u.fn(RS, 'new', within='impl<T> Response<T>', props=P, ensures=[Clause('fresh', 'r.message == message && r.metadata.headers@ == %s && r.extensions == Extensions::empty_spec()' % EMPTYMAP)])
+    u.fn(RS, 'into_inner', within='impl<T> Response<T>', props=P, ensures=[Clause('message', 'r == self.message')])
+    u.fn(RS, 'get_ref', within='impl<T> Response<T>', props=P, ensures=[Clause('message', '*r == self.message')])
+    u.fn(RS, 'metadata', within='impl<T> Response<T>', props=P, ensures=[Clause('field', '*r == self.metadata')])
     u.fn(RS, 'map', within='impl<T> Response<T>', props=P, requires=['f.requires((self.message,))'],
          ensures=[Clause('M1_only_the_message_changes', 'f.ensures((self.message,), r.message) && r.metadata == self.metadata && r.extensions == self.extensions')])
     u.close('}')
@@ -291,7 +299,7 @@ impl EnabledCompressionEncodings {
                             && (!encoding_refused(request.headers@, self.accept_compression_encodings) ==> r is Ok)''')])
     u.fn(G, 'map_response', within=W, props=['C02', 'C03', 'C05', 'C08'],
          sig_edits=[lambda t: t.sub_code('R12', r'Result<crate::Response<B>, Status>', 'Result<Response<B>, Status>'),
-                    lambda t: t.sub_code('R12', r'\bwhere\s+B: Stream<Item = Result<T::Encode, Status>>[^{]*', '')],
+                    lambda t: t.sub_code('R12', r'\bwhere\s+B: Stream<Item = Result<T::Encode, Status>>[^{]*', 'where B: Stream<Item = Result<T::Encode, Status>>')],
          body_start='        proof { lemma_names_distinct(); }',
          ensures=[
              Clause('MR1_an_error_status_is_a_trailers_only_response', 'response matches Err(st) ==> status_response(r, st)'),
